@@ -355,5 +355,129 @@ Proof.
 Qed.
 
 (* ---------------------------------------------------------------- the concrete printer is right on Constant / Var nodes *)
-Lemma repr_m_atoms : R_atoms repr_m.
+Lemma repr_m_atoms ta : R_atoms (repr_m ta).
 Proof. split; intro v; reflexivity. Qed.
+
+(* ---------------------------------------------------------------- the repaired Var/Constant equality: everything is the walk *)
+Lemma eq_nonad_t_walk a b : eq_nonad_t a b = walk a b.
+Proof. unfold eq_nonad_t. destruct (exact_term a && negb (exact_term b)); auto using walk_sym. Qed.
+
+Lemma eq_elem_t_walk a b : eq_elem_t a b = walk a b.
+Proof.
+  destruct a as [| z | c f l | hs b0], b as [| z2 | c2 f2 l2 | hs2 b2]; try reflexivity.
+  unfold eq_elem_t. apply eq_nonad_t_walk.
+Qed.
+
+Lemma list_eqb_t_walk l1 l2 : list_eqb_t l1 l2 = walk_list l1 l2.
+Proof.
+  revert l2; induction l1 as [|x r IH]; intros [|y r2]; simpl; auto.
+  now rewrite eq_elem_t_walk, IH.
+Qed.
+
+Lemma eq_typed_node c1 f1 l1 c2 f2 l2 :
+  eq_typed (PNode c1 f1 l1) (PNode c2 f2 l2) = walk (PNode c1 f1 l1) (PNode c2 f2 l2).
+Proof. unfold eq_typed. apply eq_nonad_t_walk. Qed.
+
+Lemma eq_typed_ad h1 b1 h2 b2 :
+  eq_typed (PAD h1 b1) (PAD h2 b2) = walk_list h1 h2 && walk b1 b2.
+Proof. unfold eq_typed. now rewrite list_eqb_t_walk, eq_elem_t_walk. Qed.
+
+Lemma wf_ad_args hs b : wf (PAD hs b) = true -> forallb wf_arg hs = true /\ wf_arg b = true.
+Proof.
+  intro W. destruct (wf_ad _ _ W) as [H B]. split.
+  - apply forallb_elem_ok_wf; assumption.
+  - apply elem_ok_wf; assumption.
+Qed.
+
+Lemma eq_typed_refl a : wf a = true -> eq_typed a a = true.
+Proof.
+  destruct a as [| z | c f l | hs b]; intro W; try discriminate.
+  - rewrite eq_typed_node. apply walk_refl. exact W.
+  - rewrite eq_typed_ad. destruct (wf_ad_args _ _ W) as [H B].
+    now rewrite walk_list_refl, walk_refl.
+Qed.
+
+Lemma eq_typed_sym a b : eq_typed a b = eq_typed b a.
+Proof.
+  destruct a as [| z | c f l | hs b0], b as [| z2 | c2 f2 l2 | hs2 b2]; try reflexivity.
+  - rewrite !eq_typed_node. apply walk_sym.
+  - rewrite !eq_typed_ad. now rewrite walk_list_sym, walk_sym.
+Qed.
+
+Lemma eq_typed_trans a b c : eq_typed a b = true -> eq_typed b c = true -> eq_typed a c = true.
+Proof.
+  destruct a as [| z | c1 f1 l1 | hs1 b1]; try discriminate;
+    destruct b as [| z2 | c2 f2 l2 | hs2 b2]; try discriminate;
+    destruct c as [| z3 | c3 f3 l3 | hs3 b3]; try discriminate.
+  - rewrite !eq_typed_node. apply walk_trans.
+  - rewrite !eq_typed_ad. intros A B.
+    apply andb_true_iff in A as [A1 A2]. apply andb_true_iff in B as [B1 B2].
+    now rewrite (walk_list_trans _ _ _ A1 B1), (walk_trans _ _ _ A2 B2).
+Qed.
+
+Lemma eq_typed_hash nh a b :
+  wf a = true -> wf b = true -> nh || nfa_top a b = true ->
+  eq_typed a b = true -> hk nh a = hk nh b.
+Proof.
+  intros Wa Wb G.
+  destruct a as [| z | c1 f1 l1 | hs1 b1]; try discriminate;
+    destruct b as [| z2 | c2 f2 l2 | hs2 b2]; try discriminate.
+  - rewrite eq_typed_node. apply walk_hk; assumption.
+  - rewrite eq_typed_ad. intro H. apply andb_true_iff in H as [H1 H2].
+    destruct (wf_ad_args _ _ Wa) as [A1 A2]. destruct (wf_ad_args _ _ Wb) as [B1 B2].
+    assert (Gh : nh || nfa_list hs1 hs2 = true).
+    { destruct nh; simpl in *; auto. apply andb_true_iff in G as [G _]. exact G. }
+    assert (Gb : nh || nfa b1 b2 = true).
+    { destruct nh; simpl in *; auto. apply andb_true_iff in G as [_ G]. exact G. }
+    pose proof (walk_list_hk nh hs1 hs2 A1 B1 Gh H1) as MH.
+    pose proof (walk_hk nh b1 b2 A2 B2 Gb H2) as MB.
+    pose proof (walk_arglen b1 b2 A2 B2 H2) as AB.
+    pose proof (walk_list_length _ _ H1) as LEN.
+    simpl. rewrite MH, MB, AB, LEN. reflexivity.
+Qed.
+
+Lemma eq_typed_unify a b :
+  wf_arg a = true -> wf_arg b = true -> ground a = true -> ground b = true ->
+  nfa a b && shape_agree a b && noquotes a && noquotes b = true ->
+  eq_typed a b = unify_ident a b.
+Proof.
+  intros Wa Wb Ga Gb G.
+  apply andb_true_iff in G as [G Qb]. apply andb_true_iff in G as [G Qa].
+  apply andb_true_iff in G as [N S].
+  destruct a as [| z | c1 f1 l1 | hs1 b1]; try discriminate;
+    destruct b as [| z2 | c2 f2 l2 | hs2 b2]; try discriminate.
+  rewrite eq_typed_node. apply walk_unify; assumption.
+Qed.
+
+(* ---------------------------------------------------------------- both variants at once *)
+Lemma eq_cfg_refl ta R a : wf a = true -> eq_cfg ta R a a = true.
+Proof. destruct ta; [apply eq_typed_refl | apply eq_m_refl]. Qed.
+
+Lemma eq_cfg_sym ta R a b :
+  wf a = true -> wf b = true -> ta || sym_guard a b = true -> eq_cfg ta R a b = eq_cfg ta R b a.
+Proof. destruct ta; intros Wa Wb G; [apply eq_typed_sym | apply eq_m_sym; assumption]. Qed.
+
+Lemma eq_cfg_trans ta R a b c :
+  wf a = true -> wf b = true -> wf c = true -> ta || trans_guard a b c = true ->
+  eq_cfg ta R a b = true -> eq_cfg ta R b c = true -> eq_cfg ta R a c = true.
+Proof. destruct ta; intros Wa Wb Wc G; [apply eq_typed_trans | apply eq_m_trans; assumption]. Qed.
+
+Definition hash_guard_cfg (ta nh : bool) (a b : pyterm) : bool :=
+  if ta then nh || nfa_top a b else hash_guard nh a b.
+
+Lemma eq_cfg_hash ta nh R a b :
+  R_atoms R -> wf a = true -> wf b = true -> hash_guard_cfg ta nh a b = true ->
+  eq_cfg ta R a b = true -> hk nh a = hk nh b.
+Proof.
+  destruct ta; intros HR Wa Wb G; [apply eq_typed_hash | apply eq_m_hash]; assumption.
+Qed.
+
+Definition unify_guard_cfg (ta : bool) (a b : pyterm) : bool :=
+  if ta then nfa a b && shape_agree a b && noquotes a && noquotes b else unify_guard a b.
+
+Lemma eq_cfg_unify ta R a b :
+  R_atoms R -> wf_arg a = true -> wf_arg b = true -> ground a = true -> ground b = true ->
+  unify_guard_cfg ta a b = true -> eq_cfg ta R a b = unify_ident a b.
+Proof.
+  destruct ta; intros HR Wa Wb Ga Gb G; [apply eq_typed_unify | apply eq_m_unify]; assumption.
+Qed.
